@@ -7,8 +7,13 @@ QV = "(forall k int :: 0 <= k && k < len(qSeq) ==> lidx(alpha, qSeq[k]) >= 0)"
 VALID = RV + " && " + QV
 DIMS = "r == len(rSeq) + 1 && c == len(qSeq) + 1 && len(table) == r * c && fresh(table)"
 ALN = "(arr(aln) == 0 && cap(aln) == 0) || (fresh(aln) && allocated(aln))"
+# every reported pair is an ungapped block or a gap in exactly one sequence (or empty): the segment being traced
+# has moved equally in both sequences (diag), only in the reference (up) or only in the query (left)
+SHAPE = "0 <= i && 0 <= j && i <= maxI && j <= maxJ && (last == 0 ==> maxI - i == maxJ - j) && (last == 1 ==> maxJ == j) && (last == 2 ==> maxI == i) && 0 <= last && last <= 2 && (i == r - 1 && j == c - 1 ==> maxI == i && maxJ == j) && maxI < r && maxJ < c"
+PAIRS = "forall k int :: 0 <= k && k < len(aln) ==> wfPair(aln[k], len(rSeq), len(qSeq))"
+ENSPAIRS = "//@   ensures [pairs] result1 == nil ==> forall k int :: 0 <= k && k < len(result0) ==> wfPair(result0[k], len(rSeq), len(qSeq))\n"
 LOOP1 = "0 <= idx && idx <= len(a) && let == len(a) && let >= alphaLen(alpha) && len(la) == idx * let && cap(la) >= let * let && fresh(la) && forall k int :: 0 <= k && k < idx ==> len(a[k]) == let"
-ENS = '''//@   ensures [illegal-reference] (exists k int :: 0 <= k && k < len(rSeq) && lidx(alpha, rSeq[k]) < 0) ==> result1 != nil
+ENS = ENSPAIRS + '''//@   ensures [illegal-reference] (exists k int :: 0 <= k && k < len(rSeq) && lidx(alpha, rSeq[k]) < 0) ==> result1 != nil
 //@   ensures [illegal-query]     (exists k int :: 0 <= k && k < len(qSeq) && lidx(alpha, qSeq[k]) < 0) ==> result1 != nil
 //@   ensures [undersized]        len(a) < alphaLen(alpha) ==> result1 != nil
 //@   ensures [ragged]            (exists k int :: 0 <= k && k < len(a) && len(a[k]) != len(a)) ==> result1 != nil
@@ -26,10 +31,13 @@ def nw(recv, fn):
 //@   loop 6 invariant 1 <= i && i <= r && {KEEP} && {VALID} && {DIMS}
 //@   loop 7 invariant 1 <= i && i < r && 1 <= j && j <= c && {KEEP} && {VALID} && {DIMS}
 //@   loop 8 invariant 0 <= i && i < r && 0 <= j && j < c && {KEEP} && {VALID} && {DIMS}
+//@   loop 8 invariant [shape] {SHAPE}
 //@   loop 8 invariant [aln] {ALN}
+//@   loop 8 invariant [pairs] {PAIRS}
 //@   loop 8 writes fresh
 //@   loop 9 invariant 0 <= i && j == len(aln) - 1 - i && {KEEP} && {VALID}
 //@   loop 9 invariant [aln] {ALN}
+//@   loop 9 invariant [pairs] {PAIRS}
 //@   loop 9 writes fresh
 '''
 def sw(recv, fn):
@@ -52,10 +60,13 @@ def sw(recv, fn):
 //@   loop 3 invariant [dims] {DIMS}
 //@   loop 3 invariant [valid] (c > 1 ==> forall k int :: 0 <= k && k < i - 1 ==> lidx(alpha, rSeq[k]) >= 0) && (i > 1 && c > 1 ==> {QV}) && (j > 1 ==> lidx(alpha, rSeq[i-1]) >= 0) && (forall k int :: 0 <= k && k < j - 1 ==> lidx(alpha, qSeq[k]) >= 0)
 //@   loop 4 invariant 0 <= i && i < r && 0 <= j && j < c && {KEEP} && {DIMS} && {cv}
+//@   loop 4 invariant [shape] {SHAPE}
 //@   loop 4 invariant [aln] {ALN}
+//@   loop 4 invariant [pairs] {PAIRS}
 //@   loop 4 writes fresh
 //@   loop 5 invariant 0 <= i && j == len(aln) - 1 - i && {KEEP} && {cv} && r == len(rSeq) + 1 && c == len(qSeq) + 1
 //@   loop 5 invariant [aln] {ALN}
+//@   loop 5 invariant [pairs] {PAIRS}
 //@   loop 5 writes fresh
 '''
 def fitted(recv, fn):
@@ -71,13 +82,18 @@ def fitted(recv, fn):
 //@   loop 6 invariant 1 <= i && i < r && 1 <= j && j <= c && {KEEP} && {VALID} && {DIMS}
 //@   loop 7 invariant j == c - 1 && i == 0 && {KEEP} && {VALID} && {DIMS}
 //@   loop 7 invariant [aln] {ALN}
+//@   loop 7 invariant [pairs] {PAIRS}
 //@   loop 8 invariant 1 <= y && y <= r && j == c - 1 && 0 <= i && i < r && 0 <= qVal && qVal < let && {KEEP} && {VALID} && {DIMS}
 //@   loop 8 invariant [aln] {ALN}
+//@   loop 8 invariant [pairs] {PAIRS}
 //@   loop 9 invariant 0 <= i && i < r && 0 <= j && j < c && {KEEP} && {VALID} && {DIMS}
+//@   loop 9 invariant [shape] {SHAPE}
 //@   loop 9 invariant [aln] {ALN}
+//@   loop 9 invariant [pairs] {PAIRS}
 //@   loop 9 writes fresh
 //@   loop 10 invariant 0 <= i && j == len(aln) - 1 - i && {KEEP} && {VALID}
 //@   loop 10 invariant [aln] {ALN}
+//@   loop 10 invariant [pairs] {PAIRS}
 //@   loop 10 writes fresh
 '''
 def affine(s):
@@ -97,11 +113,15 @@ def nwaffine(recv, fn):
 //@   loop 7 invariant 1 <= i && i < r && 1 <= j && j <= c && {KEEP} && {VALID} && {DIMS}
 //@   loop 8 invariant 0 <= idx && idx <= 2 && 0 <= layer && layer <= 2 && {KEEP} && {VALID} && {DIMS}
 //@   loop 8 invariant [aln] {ALN}
+//@   loop 8 invariant [pairs] {PAIRS}
 //@   loop 9 invariant 0 <= i && i < r && 0 <= j && j < c && 0 <= layer && layer <= 2 && {KEEP} && {VALID} && {DIMS}
+//@   loop 9 invariant [shape] {SHAPE}
 //@   loop 9 invariant [aln] {ALN}
+//@   loop 9 invariant [pairs] {PAIRS}
 //@   loop 9 writes fresh
 //@   loop 10 invariant 0 <= i && j == len(aln) - 1 - i && {KEEP} && {VALID}
 //@   loop 10 invariant [aln] {ALN}
+//@   loop 10 invariant [pairs] {PAIRS}
 //@   loop 10 writes fresh
 ''')
 def swaffine(recv, fn):
@@ -122,11 +142,15 @@ def fittedaffine(recv, fn):
 //@   loop 7 invariant 1 <= i && i < r && 1 <= j && j <= c && {KEEP} && {VALID} && {DIMS}
 //@   loop 8 invariant 1 <= y && y <= r && j == c - 1 && 0 <= i && i < r && layer == 0 && {KEEP} && {VALID} && {DIMS}
 //@   loop 8 invariant [aln] {ALN}
+//@   loop 8 invariant [pairs] {PAIRS}
 //@   loop 9 invariant 0 <= i && i < r && 0 <= j && j < c && 0 <= layer && layer <= 2 && {KEEP} && {VALID} && {DIMS}
+//@   loop 9 invariant [shape] {SHAPE}
 //@   loop 9 invariant [aln] {ALN}
+//@   loop 9 invariant [pairs] {PAIRS}
 //@   loop 9 writes fresh
 //@   loop 10 invariant 0 <= i && j == len(aln) - 1 - i && {KEEP} && {VALID}
 //@   loop 10 invariant [aln] {ALN}
+//@   loop 10 invariant [pairs] {PAIRS}
 //@   loop 10 writes fresh
 ''')
 def q(s):
